@@ -72,7 +72,7 @@ class Prop(object):
     TECHNIQUE = ('exhaustive enumeration of transferable-key shapes written by an independent encoder plus explicit-state search over key-management histories; '
                  'export/import invariant (reference parse before and after) evaluated on every shape and in every state')
     RULE = ('foreign shapes: user ids 1..3 x attribute 0..1 x subkeys 0..2 (differing algorithms) x self-signatures per identity 1..2 x third-party certification '
-            '{none, exportable absent / true / false} x identity revocation x direct-key signature / designated revoker / key revocation x equal creation times x '
+            '{none, exportable absent / true / false / hashed and unhashed copies contradicting each other} x identity revocation x direct-key signature / designated revoker / key revocation x equal creation times x '
             'trust packets interleaved x public / secret; concatenations of 2-3 keys in every order (public and secret mixed); native shapes: every state of the '
             'key-history search. One state = one shape or one canonical key state.')
     ASSUMPTIONS = ['signatures are identified by type, algorithms, hashed-area octets and signature integers, not by packet framing (a legal re-framing is no alarm)',
@@ -162,8 +162,12 @@ class Prop(object):
                 out += sig(prim, 0x13, subj, wire.subpacket(27, b'\x03') + wire.subpacket(11, b'\x09\x07') + (wire.subpacket(25, b'\x01') if i == 0 and j == 0 else b'')) + trust
             th = shape.get('third')
             if th and i == 0:
-                extra = {'absent': b'', 'true': wire.subpacket(4, b'\x01'), 'false': wire.subpacket(4, b'\x00')}[th]
-                out += sig(other, 0x12, subj, extra) + trust
+                # ('false/unhashed-true', 'true/unhashed-false': the signed, hashed subpacket decides; a contradicting copy in the unhashed area - which
+                # anyone can add to a finished signature - does not)
+                extra = {'absent': b'', 'true': wire.subpacket(4, b'\x01'), 'false': wire.subpacket(4, b'\x00'),
+                         'false/unhashed-true': wire.subpacket(4, b'\x00'), 'true/unhashed-false': wire.subpacket(4, b'\x01')}[th]
+                un = {'false/unhashed-true': wire.subpacket(4, b'\x01'), 'true/unhashed-false': wire.subpacket(4, b'\x00')}.get(th, b'')
+                out += sig(other, 0x12, subj, extra, unhashed_extra=un) + trust
             if shape.get('revoke_uid') and i == len(ids) - 1:
                 out += sig(prim, 0x30, subj, wire.subpacket(29, b'\x20no longer valid')) + trust
             if 'uidrev-local' in ex and i == 0:
@@ -187,7 +191,7 @@ class Prop(object):
         import pgpy
         r = Res()
         extras_sets = [(), ('direct', 'direct-third-local'), ('revoker', 'keyrev', 'uidrev-local'), ('direct', 'subrev', 'direct-third')]
-        combos = list(itertools.product((False, True), (1, 2), (None, 'absent', 'true', 'false'), (False, True), extras_sets, (False, True), (False, True)))
+        combos = list(itertools.product((False, True), (1, 2), (None, 'absent', 'true', 'false', 'false/unhashed-true', 'true/unhashed-false'), (False, True), extras_sets, (False, True), (False, True)))
         if case.get('reduced'):
             combos = [c for i, c in enumerate(combos) if (i + c[1]) % 2 == 0]
         for idx, (uat, nself, third, revoke_uid, extras, same_time, trust) in enumerate(combos):
